@@ -457,7 +457,7 @@ func ruleScannerLoopsStopAtEOF(r *Run, rels []string, floor int) {
 				}
 				// a Peek hoisted in front of the loop (for ch := s.Peek(); ...; ch = s.Peek())
 				for _, c := range callsIn(fn) {
-					if call, ok := c.(*ssa.Call); ok && callIs(call, "text/scanner", "(*Scanner).Peek") && call.Block().Dominates(sc) {
+					if call, ok := c.(*ssa.Call); ok && (callIs(call, "text/scanner", "(*Scanner).Peek") || callIs(call, "text/scanner", "(*Scanner).Next")) && call.Block().Dominates(sc) && !blocks[call.Block()] {
 						assume[call] = constant.MakeInt64(-1)
 					}
 				}
